@@ -292,6 +292,7 @@ class History:
             if in_state:
                 mon.v("rejected-block-in-chain-state:" + "+".join(sorted(codes)), "class %s: block that breaks %s is part of "
                       "the node's chain state after delivery" % (cls, sorted(codes)), w)
+                self.diverged = True      # the node now holds a block the harness' world does not: end this history
             elif gen.fingerprint(after_cs) != gen.fingerprint(before_cs):
                 mon.v("rejected-delivery-changed-chain-state", "class %s" % cls, w)
             if bid in rows_after:
@@ -348,6 +349,8 @@ class History:
             if rblk.ts > world.now + 30 and "future" not in must:
                 self.net.clock.t = world.now = rblk.ts + 10
             self.deliver(rblk, cls, must, may)
+            if getattr(self, "diverged", False):
+                break
             if len(self.active_raws()) < 3:
                 self.add_peer()
         self.ro.close()
